@@ -31,6 +31,16 @@ def judgeProxy (st : ProxySt) (fields : List String) : ProxySt × String :=
       | some rw, some rq, some rs => ({ active := true, l := ⟨rq, rs, lq, rw⟩, upAE := ae, cacheable := cc = "1" }, "ok case 0")
       | _, _, _ => (st, "BADLINE proxy case pairs")
     | _, _, _, _, _ => (st, "BADLINE proxy case")
+  | ["hang", limit, c1, ms1, c2, ms2] =>
+    -- an upstream that never answers: the proxy timeout ends the fetch with an error (504) and releases the
+    -- request coalesced behind it, within the timeout plus scheduling slack
+    match limit.toNat?, c1.toInt?, ms1.toNat?, c2.toInt?, ms2.toNat? with
+    | some l, some c1, some ms1, some c2, some ms2 =>
+      let late := ms1 > l + 1500 ∨ ms2 > l + 1500 ∨ c1 < 0 ∨ c2 < 0
+      let trip := (if late then " TRIP upstream_hang_not_ended" else "")
+        ++ (if !late ∧ (c1 < 500 ∨ c2 < 500) then " TRIP no_5xx" else "")
+      (st, s!"ok hang 1{trip}")
+    | _, _, _, _, _ => (st, "BADLINE proxy hang")
   | ["req", no, m, path, rawq, hdr, body, "=>", up, code, xs, rhdr, rbody, restored, pathAfter, queryAfter] =>
     if !st.active then (st, "BADLINE proxy no case") else
     match unhex m, unhex path, unhex rawq, parseHeader hdr, unhex body, code.toNat?, unhex xs, parseHeader rhdr, unhex rbody with
